@@ -33,6 +33,7 @@
 //   non-trivial: a failure fired inside a LIB(...) call of a step (not while the harness builds arguments or the world).
 #include "poly_common.hh"
 #include <dlfcn.h>
+#include <execinfo.h>
 #include <sys/wait.h>
 #include <cerrno>
 #include <optional>
@@ -51,7 +52,9 @@ static int call_depth = 0;     // > 0: inside a LIB(...) call
 static bool gmp_on = false;    // GMP events are counted / injected too
 static bool fired_in_call = false, fired_gmp = false;
 static long n_new = 0, n_gmp = 0, n_gmp_other = 0;
-struct Hdr { uint64_t magic; uint64_t tagged; };
+struct Hdr { uint64_t magic; uint64_t tagged; void* site; uint32_t slot; uint32_t cls; void* up[2]; };   // site / up: who asked for the block (leak attribution); cls 1: operator new[], 2: the operator new following it
+static bool deep = false;        // record two more frames (last leak repetition only)   // site: who asked for the block (leak attribution)
+static const size_t NSLOT = 1 << 15; static Hdr* slots[NSLOT]; static size_t next_slot = 0; static uint64_t seq = 0;
 static const uint64_t MAGIC = 0xC14C14C14C14C14CULL;
 static inline bool quiet() {
 #ifndef NDEBUG
@@ -76,14 +79,39 @@ static inline bool event(bool gmp, bool array = false) {
     (void) pa; arm = 0; ++fired; fired_in_call = call_depth > 0; fired_gmp = gmp; return true; }
   return false;
 }
-static inline void* get(size_t n) {
+static bool last_get_array = false;
+static inline void* get(size_t n, void* site, int kind = 0) {   // kind 1: operator new[], 2: GMP
   Hdr* p = (Hdr*) std::malloc(n + sizeof(Hdr)); if (!p) return 0;
-  p->magic = MAGIC; p->tagged = track > 0 ? 1 : 0; live += (long) p->tagged; return p + 1;
+  p->magic = MAGIC; p->tagged = track > 0 ? ++seq : 0; p->site = site; p->slot = NSLOT; p->up[0] = p->up[1] = 0;
+  p->cls = kind == 1 ? 1 : (kind == 0 && last_get_array) ? 2 : kind == 2 ? 3 : 0; if (kind != 2) last_get_array = kind == 1;
+  if (p->tagged && deep) { void* bt[6]; int d = backtrace(bt, 6); if (d > 3) p->up[0] = bt[3]; if (d > 4) p->up[1] = bt[4]; }
+  if (p->tagged) { ++live; for (size_t k = 0; k < NSLOT; ++k) { size_t i = (next_slot + k) % NSLOT; if (!slots[i]) { slots[i] = p; p->slot = (uint32_t) i; next_slot = i + 1; break; } } }
+  return p + 1;
 }
 static inline void put(void* q) {
   if (!q) return; Hdr* p = (Hdr*) q - 1;
   if (p->magic != MAGIC) { std::free(q); return; }
-  live -= (long) p->tagged; p->magic = 0; std::free(p);
+  if (p->tagged) { --live; if (p->slot < NSLOT) slots[p->slot] = 0; }
+  p->magic = 0; std::free(p);
+}
+// blocks allocated in the tracked region after sequence number `since' and still alive, grouped by requesting site
+static std::string site_name(void* a) {
+  if (!a) return "?"; Dl_info di; char buf[64];
+  if (dladdr(a, &di) && di.dli_sname) return di.dli_sname;
+  std::snprintf(buf, sizeof buf, "exe+0x%lx", (unsigned long) ((char*) a - (char*) (dladdr(a, &di) ? di.dli_fbase : 0))); return buf;
+}
+// kind: 1 the survivors are one to three limb blocks and nothing else (a gmpxx mpq_class object whose constructor threw after its first allocations), 2 every non-GMP survivor belongs to a CO_Tree::init pair
+static std::string survivors(uint64_t since, int* kind) {
+  std::map<std::string, int> m; bool only_q = true, only_tree = true; int n = 0, n_tree = 0;
+  for (size_t i = 0; i < NSLOT; ++i) if (slots[i] && slots[i]->tagged > since) {
+    Hdr* h = slots[i]; std::string nm = site_name(h->site);
+    if (h->up[0]) nm += " < " + site_name(h->up[0]) + " < " + site_name(h->up[1]);
+    if (h->cls != 3) only_q = false;
+    if (h->cls == 1 || h->cls == 2) ++n_tree; else if (h->cls != 3) only_tree = false;
+    ++n; m[nm]++;
+  }
+  if (kind) *kind = n == 0 ? 0 : (only_q && n <= 3) ? 1 : (only_tree && n_tree > 0) ? 2 : 0;
+  std::string r; for (auto& kv : m) r += " [" + kv.first + "] x" + std::to_string(kv.second); return r;
 }
 // is the GMP function that asks for memory one that stays consistent when the allocator throws?
 static bool safe_caller(void* ra) {
@@ -97,10 +125,10 @@ static bool safe_caller(void* ra) {
 struct Pause { int s; Pause() : s(track) { track = 0; } ~Pause() { track = s; } };
 struct Call { Call() { ++call_depth; } ~Call() { --call_depth; } };
 }
-void* operator new(size_t n) { if (mem::event(false)) throw std::bad_alloc(); void* p = mem::get(n); if (!p) throw std::bad_alloc(); return p; }
-void* operator new[](size_t n) { if (mem::event(false, true)) throw std::bad_alloc(); void* p = mem::get(n); if (!p) throw std::bad_alloc(); return p; }
-void* operator new(size_t n, const std::nothrow_t&) noexcept { if (mem::event(false)) return 0; return mem::get(n); }
-void* operator new[](size_t n, const std::nothrow_t&) noexcept { if (mem::event(false, true)) return 0; return mem::get(n); }
+void* operator new(size_t n) { if (mem::event(false)) throw std::bad_alloc(); void* p = mem::get(n, __builtin_return_address(0)); if (!p) throw std::bad_alloc(); return p; }
+void* operator new[](size_t n) { if (mem::event(false, true)) throw std::bad_alloc(); void* p = mem::get(n, __builtin_return_address(0), 1); if (!p) throw std::bad_alloc(); return p; }
+void* operator new(size_t n, const std::nothrow_t&) noexcept { if (mem::event(false)) return 0; return mem::get(n, __builtin_return_address(0)); }
+void* operator new[](size_t n, const std::nothrow_t&) noexcept { if (mem::event(false, true)) return 0; return mem::get(n, __builtin_return_address(0), 1); }
 void operator delete(void* p) noexcept { mem::put(p); }
 void operator delete[](void* p) noexcept { mem::put(p); }
 void operator delete(void* p, size_t) noexcept { mem::put(p); }
@@ -111,19 +139,23 @@ void operator delete[](void* p, const std::nothrow_t&) noexcept { mem::put(p); }
 extern "C" {
 static void* c14_gmp_alloc(size_t n) {
   if (mem::gmp_on && mem::track > 0) { if (mem::safe_caller(__builtin_return_address(0))) { if (mem::event(true)) throw std::bad_alloc(); } else ++mem::n_gmp_other; }
-  void* p = mem::get(n); if (!p) throw std::bad_alloc(); return p;
+  void* p = mem::get(n, __builtin_return_address(0), 2); if (!p) throw std::bad_alloc(); return p;
 }
 static void* c14_gmp_realloc(void* q, size_t old, size_t n) {
   if (mem::gmp_on && mem::track > 0) { if (mem::safe_caller(__builtin_return_address(0))) { if (mem::event(true)) throw std::bad_alloc(); } else ++mem::n_gmp_other; }
   mem::Hdr* p = (mem::Hdr*) q - 1;
-  if (p->magic != mem::MAGIC) { void* r = mem::get(n); if (!r) throw std::bad_alloc(); std::memcpy(r, q, old < n ? old : n); std::free(q); return r; }
-  p = (mem::Hdr*) std::realloc(p, n + sizeof(mem::Hdr)); if (!p) throw std::bad_alloc();
+  if (p->magic != mem::MAGIC) { void* r = mem::get(n, __builtin_return_address(0), 2); if (!r) throw std::bad_alloc(); std::memcpy(r, q, old < n ? old : n); std::free(q); return r; }
+  uint32_t sl = p->slot; p = (mem::Hdr*) std::realloc(p, n + sizeof(mem::Hdr)); if (!p) throw std::bad_alloc();
+  if (sl < mem::NSLOT) mem::slots[sl] = p;
   return p + 1;
 }
 static void c14_gmp_free(void* q, size_t) { mem::put(q); }
 // PPL's Init constructor calls this hook before anything else of the library runs (the default definition in libppl.a is empty).
 void ppl_set_GMP_memory_allocation_functions(void) { mp_set_memory_functions(c14_gmp_alloc, c14_gmp_realloc, c14_gmp_free); }
 }
+// Sanitizer builds: blocks are deliberately abandoned (objects that cannot be destroyed after a failure, known library leaks), and the
+// leak oracle of this harness is its own accounting: LeakSanitizer's report at exit is switched off.
+extern "C" const char* __asan_default_options() { return "detect_leaks=0"; }
 #define LIB(stmt) do { mem::Call vf_call_guard_; stmt; } while (0)
 
 // ------------------------------------------------------------------ abandonment
@@ -269,7 +301,7 @@ static const char* b_known(const std::string& fam, const Finding& f);
 template <class W> struct Driver {
   typedef typename W::Plain Plain;
   Ctx& c; const Plain& P; std::string fam; int nsteps;
-  std::vector<W*> snaps; W* fin; std::vector<Obs> obs;
+  std::vector<W*> snaps; W* fin; std::vector<Obs> obs; std::vector<long> bounds;   // bounds[i]: allocation events of the clean run before step i
   long N, C; unsigned long long Wt; long n_new, n_gmp, n_gmp_other;
   long probes, poisoned_n, fired_n, nt_n, unfired_n, absorbed_n, build_n, cache_growth_n;
   Driver(Ctx& c_, const Plain& p) : c(c_), P(p), fam(W::family(p)), nsteps(W::nsteps(p)), fin(0), N(0), C(0), Wt(0), n_new(0), n_gmp(0), n_gmp_other(0),
@@ -288,21 +320,24 @@ template <class W> struct Driver {
   void verdict(const char* chk, bool ok, const std::function<std::string()>& m) { if (!ok) finding(Finding{ id(chk), last_cls, m(), false }); }
 
   // clean run; record: keep snapshots / observations / final world; compare: against the recorded ones.  Returns the live-allocation delta.
-  long clean(bool record, bool compare, const char* which) {
+  // count_cp: run with a counting (never throwing) Throwable installed; powersets read the pointer themselves and lose precision
+  // when it is set, so the reference run keeps it null and the counting run is not compared with anything
+  long clean(bool record, bool compare, const char* which, bool count_cp = false) {
     long live0 = mem::live; std::string threw; bool eq = true; std::vector<Obs> o3;
     {
       ResetGlobals guard; CountingCheckpoint cp;
       mem::count = 0; mem::n_new = mem::n_gmp = mem::n_gmp_other = 0; mem::arm = 0; mem::fired = 0;
       unsigned long long w0 = Weightwatch_Traits::weight;
-      abandon_expensive_computations = &cp;
+      if (count_cp) abandon_expensive_computations = &cp;
       try {
         mem::track = 1;
         {
           W w(P);
           if (record) { mem::Pause p; obs.assign(nsteps, Obs()); }
           { mem::Pause p; o3.assign(nsteps, Obs()); }
-          for (int i = 0; i < nsteps; ++i) { if (record) { mem::Pause p; snaps.push_back(new W(w)); } w.step(i, record ? obs[i] : o3[i]); }
-          if (record) { mem::Pause p; fin = new W(w); if (std::getenv("C14_DEBUG")) std::cerr << "recorded: equal to live world " << w.equal(*fin) << w.diff(*fin) << "\n"; }
+          for (int i = 0; i < nsteps; ++i) { if (record) { mem::Pause p; snaps.push_back(new W(w)); bounds.push_back(mem::count); } w.step(i, record ? obs[i] : o3[i]); }
+          if (record) { mem::Pause p; bounds.push_back(mem::count); }
+          if (record) { mem::Pause p; fin = new W(w); }
           if (compare) { mem::Pause p; eq = w.equal(*fin); }
         }
         mem::track = 0;
@@ -310,7 +345,8 @@ template <class W> struct Driver {
       catch (std::exception& e) { mem::track = 0; threw = std::string(typeid(e).name()) + ": " + e.what(); }
       catch (...) { mem::track = 0; threw = "non-standard exception"; }
       abandon_expensive_computations = 0;
-      if (record) { N = mem::count; C = cp.seen; Wt = Weightwatch_Traits::weight - w0; n_new = mem::n_new; n_gmp = mem::n_gmp; n_gmp_other = mem::n_gmp_other; }
+      if (count_cp) C = cp.seen;
+      if (record) { N = mem::count; Wt = Weightwatch_Traits::weight - w0; n_new = mem::n_new; n_gmp = mem::n_gmp; n_gmp_other = mem::n_gmp_other; }
     }
     c.check(id("b.clean_threw"), threw.empty(), [&] { return std::string(which) + " clean run of the scenario threw " + threw; });
     if (compare) {
@@ -328,9 +364,9 @@ template <class W> struct Driver {
     ~Slot() { if (w && !abandon) w->~W(); }
     W* operator->() { return w; }
   };
-  bool skip_leak;
+  bool skip_leak; uint64_t run_seq0;
   long fault(int mode, long k, bool oracle) {
-    long live0 = mem::live; skip_leak = false;
+    long live0 = mem::live; skip_leak = false; run_seq0 = mem::seq;
     {
       std::vector<Obs> o2(nsteps);
       Slot ow; int stage = -2, exc = 0; std::string what;
@@ -405,8 +441,13 @@ template <class W> struct Driver {
   void probe(int mode, long k) {
     long d1 = fault(mode, k, true);
     if (d1 > 0 && !skip_leak) {
-      long d2 = fault(mode, k, false); long d3 = d2 > 0 && !skip_leak ? fault(mode, k, false) : 0;
-      if (d2 > 0 && d3 > 0 && !skip_leak) verdict("b.leak", false, [&] { return std::string("fault ") + mode_name(mode) + " k=" + std::to_string(k) + " (step class " + last_cls + "): live library allocations grew by " + std::to_string(d1) + ", " + std::to_string(d2) + ", " + std::to_string(d3) + " blocks on three consecutive identical runs (everything had been destroyed)"; });
+      long d2 = fault(mode, k, false); mem::deep = true; long d3 = d2 > 0 && !skip_leak ? fault(mode, k, false) : 0; mem::deep = false;
+      int lk = 0; std::string who = d3 > 0 ? mem::survivors(run_seq0, &lk) : std::string(); bool gmpxx_only = lk == 1 && mem::fired_gmp; if (lk == 2) last_cls += " [CO_Tree]";
+      // gmpxx: the constructors of mpq_class (copy: mpz_init_set + mpz_init_set; from an expression, e.g. the temporary of `to -= x * y':
+      // mpq_init + evaluation) have no handler: when a later allocation of the same constructor fails, the limbs allocated so far are
+      // lost.  Up to three limb blocks and nothing else surviving a GMP-level fault are attributed to the wrapper, not to the library.
+      if (d2 > 0 && d3 > 0 && !skip_leak && gmpxx_only) { c.tag("B leak inside gmpxx (mpq_class constructor interrupted)"); ++cache_growth_n; }
+      else if (d2 > 0 && d3 > 0 && !skip_leak) verdict("b.leak", false, [&] { return std::string("fault ") + mode_name(mode) + " k=" + std::to_string(k) + " (step class " + last_cls + "): live library allocations grew by " + std::to_string(d1) + ", " + std::to_string(d2) + ", " + std::to_string(d3) + " blocks on three consecutive identical runs (everything had been destroyed); blocks of the last run still alive, by requesting site:" + who; });
       else ++cache_growth_n;
     }
   }
@@ -416,8 +457,13 @@ template <class W> struct Driver {
     clean(false, false, "the warm-up");
     long d = clean(true, false, "the first");
     if (d > 0) { long d2 = clean(false, true, "the second"); long d3 = d2 > 0 ? clean(false, true, "the third") : 0;
+      // assertion-enabled builds: a clean run in which internal assertions fired (leads, execution continues) may leak in debug-only code
+      if (d2 > 0 && d3 > 0 && !vf::fired_asserts().empty()) throw vf::Inconclusive("clean run leaks after internal assertions fired (assertion-enabled build only)");
       c.check(id("b.clean_leak"), !(d2 > 0 && d3 > 0), [&] { return "clean runs leak: live library allocations grew by " + std::to_string(d) + ", " + std::to_string(d2) + ", " + std::to_string(d3) + " blocks"; }); }
-    int mode = P.mode_pref == 0 || C == 0 ? (P.gmp ? 2 : 1) : (P.mode_pref == 1 ? 3 : 4);
+    bool pps = fam == "Pointset_Powerset_C";      // powersets read the abandon pointer themselves (precision loss instead of an exception): allocation faults only
+    if (P.mode_pref == 1 && !pps) clean(false, false, "the checkpoint-counting", true);
+    int mode = P.gmp ? 2 : 1;
+    if (P.mode_pref == 1 && C > 0 && !pps) mode = 3; else if (P.mode_pref == 2 && Wt > 0 && !pps) mode = 4;
     std::vector<long> ks;
     if (mode <= 2) { long maxpos = N > 0 ? 100000 / (2 * N) : 1; if (maxpos > 100) maxpos = 100; if (maxpos < 6) maxpos = 6; ks = sample_ks(t, N, 300, maxpos); }
     else if (mode == 3) ks = sample_ks(t, C, 60, 40);
@@ -428,7 +474,16 @@ template <class W> struct Driver {
     c.log << "\n";
     c.tag(std::string("B ") + fam + " / " + mode_name(mode));
     if (n_gmp_other > 0) c.tag("B GMP allocations from non-whitelisted GMP functions present");
-    for (long k : ks) { probe(mode, k); if (std::getenv("C14_DEBUG")) { W chk(P); for (int i = 0; i < nsteps; ++i) { Obs o; chk.step(i, o); } std::cerr << "after k=" << k << " fin intact: " << chk.equal(*fin) << chk.diff(*fin) << "\n"; } }
+    // positions inside a step after which the objects are known to be unusable (solver known findings) are not injected
+    long skipped = 0;
+    for (long k : ks) {
+      const char* poison = 0;
+      if (mode <= 2) { for (int i = 0; i < nsteps; ++i) if (k > bounds[i] && k <= bounds[i + 1]) poison = snaps[i]->poison(i); }
+      else { for (int i = 0; i < nsteps && !poison; ++i) poison = snaps[i]->poison(i); }     // every checkpoint of a solver scenario lies inside solve()
+      if (poison && kf(poison)) { ++skipped; c.excluded(poison); continue; }
+      probe(mode, k);
+    }
+    if (skipped) c.log << " " << skipped << " positions inside steps covered by a known finding were not injected\n";
     clean(false, true, "the final");
     c.check(id("b.global_state"), abandon_expensive_computations == 0 && Weightwatch_Traits::check_function == 0, "abandon_expensive_computations or a weight threshold is still installed after the case");
     mem::gmp_on = false;
@@ -1265,7 +1320,8 @@ static const char* b_known(const std::string& fam, const Finding& f) {
   if (fam == "MIP_Problem" && solver_const && (is("b.arg_ok") || is("b.arg_value") || is("b.retry") || is("b.crash_after_failure") || is("b.assign_destroy") || is("b.reuse"))) return "KF-C14-8";
   // KF-C14-9: MIP_Problem owns its constraints through raw pointers: the copy constructor (also inside operator= and the branch-and-bound
   //           copies of solve()) leaks the constraints copied so far when a later allocation fails
-  if (fam == "MIP_Problem" && is("b.leak")) return "KF-C14-9";
+  if (is("b.leak") && f.cls.find("[CO_Tree]") != std::string::npos) return "KF-C14-12";
+  if ((fam == "MIP_Problem" || starts(f.cls, "maximize/minimize")) && is("b.leak")) return "KF-C14-9";     // BD shapes, octagons, boxes and grids optimize through a MIP_Problem
   // KF-C14-10: (weaker guarantee) the receiver of an interrupted mutator is left with a broken invariant: OK() is false or crashes
   if (is("b.receiver_ok")) return "KF-C14-10";
   // KF-C14-11: logically const operations that minimize / close / reduce their operands in place (lazy evaluation) leave a const
@@ -1273,7 +1329,6 @@ static const char* b_known(const std::string& fam, const Finding& f) {
   if (fam != "PIP_Problem" && fam != "MIP_Problem" && (is("b.arg_ok") || is("b.arg_value") || is("b.retry"))) return "KF-C14-11";
   // KF-C14-12: CO_Tree::CO_Tree(Iterator, n) (sparse row built from a dense row or from another sequence) does not release indexes[] / data[]
   //            when copying a coefficient throws: seen when a dense expression enters a system of sparse rows
-  if (fam == "Linear_Systems" && is("b.leak")) return "KF-C14-12";
   // KF-C14-13: domain objects involved in an interrupted call crash when they are used, assigned to or destroyed
   if (fam != "PIP_Problem" && fam != "MIP_Problem" && (is("b.crash_after_failure") || is("b.assign_destroy"))) return "KF-C14-13";
   return 0;
